@@ -315,10 +315,9 @@ R39 = [
     (r'let sub_element = ElementRaw \{\s*parent: ElementOrModel::Element\(self_weak\),\s*elemname: element_name,\s*elemtype,\s*content: smallvec!\[\],\s*attributes: smallvec!\[\],\s*file_membership: HashSet::with_capacity\(0\),\s*comment: None,\s*\}\s*\.wrap\(\);',
      lambda m: 'let sub_element = vx_new_element(self_weak, element_name, elemtype);', 'R39'),
     (r'let other_elemname = \{\s*(?://[^\n]*\n\s*)*let other_element = other\.0\.read\(\);\s*other_element\.elemname\s*\};', lambda m: 'let other_elemname = other.element_name();', 'R39'),
-    (r'elemtype\.is_named_in_version\(version\)', lambda m: 'vx_is_named_in_version(elemtype, version)', 'R39'),
 ]
 
-LEAVES = ['find_sub_element', 'find_common_group', 'ElementType.content_mode', 'GroupType.content_mode', 'get_sub_element_multiplicity']
+LEAVES = ['is_named_in_version', 'find_sub_element', 'find_common_group', 'ElementType.content_mode', 'GroupType.content_mode', 'get_sub_element_multiplicity']
 
 V = 'version as u32'
 UNIQ = '''proof {
@@ -336,14 +335,12 @@ def make_unit(repo_dir):
     check_decls(repo_dir)
     lookups.check_decls(repo_dir)
     sz = lookups.table_sizes(repo_dir)
-    lspec = lookups.TYPES % dict(STATICS='', REFERENCE_TYPE_IDX=sz['REFERENCE_TYPE_IDX'], **{k: v[1] for k, v in sz.items() if isinstance(v, tuple)})
+    lspec = lookups.TYPES % dict(version_enum='', STATICS='', REFERENCE_TYPE_IDX=sz['REFERENCE_TYPE_IDX'], **{k: v[1] for k, v in sz.items() if isinstance(v, tuple)})
     # wf_modes / lemma_common_group_mode are shared with unit elemcheck
     a = elemcheck.TYPES.index('// Table fact used by the panic!')
     b = elemcheck.TYPES.index('pub proof fn lemma_hit_idx')
     spec = lspec + elemcheck.TYPES[a:b] + TYPES % dict(version_enum=parser_funnel.version_enum(repo_dir))
     spec += r'''
-#[verifier::external_body]
-pub fn vx_is_named_in_version(t: ElementType, v: AutosarVersion) -> (r: bool) { unimplemented!() }
 // what the two inner creation paths (locks, path index, deep copy: leaves) do to the node, as uninterpreted relations of their arguments
 pub uninterp spec fn named_inner_post(before: ElementRaw, after: ElementRaw, name: ElementName, item_name: Seq<char>, position: usize, v: u32, r: Result<Element, AutosarDataError>) -> bool;
 pub uninterp spec fn copied_inner_post(before: ElementRaw, after: ElementRaw, other: Element, position: usize, v: u32, r: Result<Element, AutosarDataError>) -> bool;
@@ -400,7 +397,7 @@ pub struct AutosarModel { pub opaque: u64 }
                   requires=['old(self).elemtype.typ < n_dt()', 'position <= old(self).content@.len()'],
                   ensures=['final(self).elemname == old(self).elemname && final(self).elemtype == old(self).elemtype',
                            'match r { Ok(e) => name_of(e) == element_name && final(self).content@ == old(self).content@.insert(position as int, ElementContent::Element(e)) '
-                           '&& (find_fn(old(self).elemtype, element_name, %s) matches Some((t, _)) && type_of(e) == t), Err(_) => final(self).content@ == old(self).content@ }' % V]),
+                           '&& (find_fn(old(self).elemtype, element_name, %s) matches Some((t, _)) && type_of(e) == t && !(sn_mask(t.typ as int) matches Some(m) && m & (%s) != 0)), Err(_) => final(self).content@ == old(self).content@ }' % (V, V)]),
            FnSpec('create_sub_element', F, impl=IMPL_R, ret='r', body_sub=R39, requires=['old(self).elemtype.typ < n_dt()'],
                   ensures=['final(self).elemname == old(self).elemname && final(self).elemtype == old(self).elemtype',
                            'match r { Ok(e) => name_of(e) == element_name && exists|a: usize, b: usize| old(self).calc_post(element_name, %s, Ok((a, b))) && final(self).content@ == old(self).content@.insert(b as int, ElementContent::Element(e)), '
@@ -433,7 +430,7 @@ pub struct AutosarModel { pub opaque: u64 }
              wrap={IMPL_R: 'impl ElementRaw', lookups.IMPL_ET: 'impl ElementType', lookups.IMPL_GT: 'impl GroupType'},
              dropped=['the element graph: ElementRaw is {elemname, elemtype, content: Vec<ElementContent>} (the fields these functions read; SmallVec -> Vec), a child Element is an opaque handle with uninterpreted name_of/type_of (the real accessors take the child lock); error payloads opaque (R39)',
                       'specification lookups are leaves with the contracts proved in unit lookups, plus "find_sub_element is a function of its arguments" (find_fn); table contents uninterpreted (wf_tables, wf_modes discharged by native ground checks)',
-                      '`ElementRaw { .. }.wrap()` (Arc/RwLock allocation) is the leaf vx_new_element; is_named_in_version is a leaf with no contract'])
+                      '`ElementRaw { .. }.wrap()` (Arc/RwLock allocation) is the leaf vx_new_element'])
     u.property_lemmas = {'lemma_range_is_exact': 'for children in specification order inside a sequence: inserting at p keeps the order <==> p lies in the reported range'}
     for name in LEAVES:
         f = copy.copy(lf[name])
